@@ -51,7 +51,7 @@ var canaries = map[string][]canary{}
 var propertyCanaries = map[string][]string{
 	"C01": {"STRIDE.index", "STRIDE.len", "STRIDE.start", "STRIDE.rowoffset", "STRIDE.extent", "FLAG.trans", "TWIN.generated", "ASM.units"},
 	"C02": {"FACTKIND.pair", "ARGS.order", "ARGS.lencheck", "ARGS.query", "LOOPIDX.unused", "OKFLOW.report", "STRIDE.vecinc", "WORKSIZE.min", "WORKSIZE.querylen"},
-	"C03": {"FACTKIND.pair", "LOOPIDX.origin", "ARGS.order", "ARGS.lencheck", "ARGS.query", "LOOPIDX.unused", "OKFLOW.report", "STRIDE.workld", "STRIDE.worknext", "WORKSIZE.min"},
+	"C03": {"STRIDE.veclda", "FACTKIND.pair", "LOOPIDX.origin", "ARGS.order", "ARGS.lencheck", "ARGS.query", "LOOPIDX.unused", "OKFLOW.report", "STRIDE.workld", "STRIDE.worknext", "WORKSIZE.min"},
 	"C04": {"STRIDE.contig", "TWIN.bounds", "NILRECV"},
 	"C05": {"OVERLAP.guard", "MODSET.mat", "OVERLAP.symmetric", "TWIN.shadow"},
 	"C06": {"FACTKIND.pair", "OKFLOW.use", "OKFLOW.cond", "OKFLOW.report", "FACT.normorder", "FACT.state", "FACT.condunit", "NILRECV"},
@@ -81,6 +81,7 @@ func init() {
 		{"FACTKIND.pair", "lapack/gonum/dggsvp3.go", "impl.Dormr2(blas.Right, blas.Trans, m, n, l, b, ldb, tau, a, lda, work)", "impl.Dorm2r(blas.Right, blas.Trans, m, n, l, b, ldb, tau, a, lda, work)", func() *core.Result { return factkind.Run(def, "./lapack/gonum") }},
 		{"FACTKIND.pair", "mat/qr.go", "lapack64.Ormqr(blas.Right, blas.NoTrans, qr.qr.mat, qr.tau, c, work, len(work))", "lapack64.Ormlq(blas.Right, blas.NoTrans, qr.qr.mat, qr.tau, c, work, len(work))", func() *core.Result { return factkind.Run(def, "./mat") }},
 		{"LOOPIDX.origin", "lapack/gonum/dggsvp3.go", "r := a[i*lda : i*lda+i]\n\t\tfor j := range r {\n\t\t\tr[j] = 0", "r := a[i*lda : i*lda+i]\n\t\tfor j := range r {\n\t\t\ta[j] = 0", func() *core.Result { return loopidx.Run(def, core.Pkgs("./lapack/gonum")) }},
+		{"STRIDE.veclda", "lapack/gonum/dsteqr.go", "impl.Dlascl(lapack.General, 0, 0, anorm, ssfmax, lend-l+1, 1, d[l:], 1)", "impl.Dlascl(lapack.General, 0, 0, anorm, ssfmax, lend-l+1, 1, d[l:], n)", lap},
 		{"WORKSIZE.min", "lapack/gonum/dgels.go", "wsize := max(1, mn+max(mn, nrhs)*nb)", "wsize := max(1, mn+mn*nb)", wsz},
 		{"WORKSIZE.querylen", "lapack/gonum/dormqr.go", "case lwork < max(1, nw) && lwork != -1:\n\t\tpanic(badLWork)", "case lwork < max(1, nw) && lwork != -1:\n\t\tpanic(badLWork)\n\tcase len(tau) != k:\n\t\tpanic(badLenTau)", wsz},
 		{"WORKSIZE.min", "lapack/gonum/dsyev.go", "lworkopt := max(1, (nb+2)*n)", "lworkopt := max(1, (nb+1)*n)", wsz},
